@@ -142,7 +142,7 @@ def run_shared(tier, seed, key):
 
 
 def parse_results(d):
-    res = {"viol": [], "mism": [], "ops": 0, "scheds": 0, "keys": 0, "cov": {}, "kinds": {}, "sched": {}, "errors": "", "taint": {}}
+    res = {"viol": [], "mism": [], "ops": 0, "scheds": 0, "keys": 0, "cov": {}, "kinds": {}, "sched": {}, "errors": "", "taint": {}, "act": {}, "heal": {}}
     if os.path.exists(os.path.join(d, "ERRORS")):
         res["errors"] = open(os.path.join(d, "ERRORS")).read().strip()
     for fn in sorted(os.listdir(d)):
@@ -163,6 +163,11 @@ def parse_results(d):
                     for w in f[2:]:
                         if w.startswith("tainted=") and len(w) > 8:
                             res["taint"][f[1]] = w[8:]
+                        if w.startswith("heal="):
+                            res["heal"][f[1]] = tuple(int(x) for x in w[5:].split("/"))
+                elif line.startswith("A "):
+                    f = line.split()
+                    res["act"][f[1]] = {kv.split("=")[0]: int(kv.split("=")[1]) for kv in f[2:]}
         elif fn.startswith("drv_"):
             for line in open(p, errors="replace"):
                 if line.startswith("MISMATCH "):
@@ -188,7 +193,22 @@ def parse_results(d):
 def run(pid, spec, tier, seed, key):
     d = run_shared(tier, seed, key)
     r = parse_results(d)
-    out = {"evaluations": r["ops"], "nontrivial": len(r["cov"]), "samples": [], "mismatches": [], "violations": [], "known": [], "notes": [], "per_tag": {}}
+    # schedules in which this property's monitor evaluated at least one relevant event
+    relevant_key = {"C12": "C02.leader-elected", "C13": "C10.conf-change-applied"}.get(pid)
+    events = {}
+    rel = 0
+    for sid, a in r["act"].items():
+        hit = False
+        for k, v in a.items():
+            if k.startswith(pid + ".") or k == relevant_key:
+                events[k] = events.get(k, 0) + v
+                hit = True
+        if pid in ("C14", "C18", "C19"):
+            hit = True  # every call is made under recover() / touches the storage / is run twice
+        if pid == "C15":
+            hit = r["heal"].get(sid, (0, 0, 0))[0] > 0
+        rel += 1 if hit else 0
+    out = {"evaluations": r["ops"], "nontrivial": rel, "samples": [], "mismatches": [], "violations": [], "known": [], "notes": [], "per_tag": {}}
     if r["errors"]:
         out["mismatches"].append({"key": "harness", "model": "", "impl": r["errors"][:1500], "kind": "run"})
     known = load_known()
@@ -220,7 +240,15 @@ def run(pid, spec, tier, seed, key):
             drift += 1
     out["notes"].append("model drift outside this property's projection: %d mismatching keys" % drift)
     out["per_tag"] = {"cluster_schedules": r["scheds"], "cluster_ops_compared": r["ops"], "observable_keys_compared": r["keys"],
-                      "op_kinds": r["kinds"], "known_finding_taints": len(r["taint"])}
+                      "op_kinds": r["kinds"], "known_finding_taints": len(r["taint"]),
+                      "monitor_events": events, "distinct_op_role_msg_result_tuples": len(r["cov"])}
+    if pid == "C15":
+        runs = sum(h[0] for h in r["heal"].values())
+        ok = sum(h[1] for h in r["heal"].values())
+        rounds = sorted(h[2] for h in r["heal"].values() if h[1])
+        out["per_tag"]["fault_free_suffixes"] = {"run": runs, "converged": ok,
+                                                 "ticks_to_converge_median": rounds[len(rounds) // 2] if rounds else 0,
+                                                 "ticks_to_converge_max": rounds[-1] if rounds else 0}
     cov = sorted(r["cov"].items(), key=lambda x: -x[1])
     out["samples"] = ["op/role/msgtype/result x count: " + ", ".join("%s x%d" % c for c in cov[:12])]
     for sid, sch in list(r["sched"].items())[:2]:
